@@ -488,6 +488,45 @@ DoGenesis(s, m) ==
             THEN [s EXCEPT !.lastMatched = [i \in 1..Len(@) |-> 0]] ELSE s
   IN [st |-> s1, ok |-> TRUE, err |-> "", xfers |-> <<>>, hooks |-> <<>>]
 
+(* keeper/query_*.go.  A request field at its zero value ("" or auction id 0 in a listing) means *)
+(* "not set"; a listing returns, in store order, exactly the stored objects that satisfy the set  *)
+(* fields.  Answers are sequences (empty = not found) of records / keys in model terms.           *)
+Flat(n, F(_)) == LET f[i \in 0..n] == IF i = 0 THEN <<>> ELSE f[i - 1] \o F(i) IN f[n]
+CatAuctions(s, dummy, F(_, _)) == Flat(Len(s.auctions), LAMBDA i : F(s, i))
+
+QueryAnswer(s, m) ==
+  CASE m.q = "GetAuction" -> IF Exists(s, m.id) THEN <<Auc(s, m.id)>> ELSE <<>>
+    [] m.q = "ListAuction" ->
+         SelectSeq(s.auctions, LAMBDA a : (m.status = "" \/ a.status = m.status) /\ (m.type = "" \/ a.type = m.type))
+    [] m.q = "GetBid" ->
+         IF Exists(s, m.id) /\ m.bid \in 1..Len(s.bids[m.id + 1]) THEN <<s.bids[m.id + 1][m.bid]>> ELSE <<>>
+    [] m.q = "ListBid" ->
+         CatAuctions(s, 1, LAMBDA st, i :
+           IF m.id = 0 \/ st.auctions[i].id = m.id
+           THEN MapSeq(SelectSeq(st.bids[i], LAMBDA b : (m.bidder = "" \/ b.bidder = m.bidder)
+                                                       /\ (m.matched = "" \/ (m.matched = "true") = b.matched)),
+                       LAMBDA b : [aid |-> st.auctions[i].id, id |-> b.id])
+           ELSE <<>>)
+    [] m.q = "ListVestingQueue" ->
+         CatAuctions(s, 1, LAMBDA st, i :
+           IF m.id = 0 \/ st.auctions[i].id = m.id
+           THEN MapSeq(st.vqs[i], LAMBDA v : [aid |-> st.auctions[i].id, t |-> v.t, amt |-> v.amt, released |-> v.released])
+           ELSE <<>>)
+    [] m.q = "ListAllowedBidder" ->
+         CatAuctions(s, 1, LAMBDA st, i :
+           IF m.id = 0 \/ st.auctions[i].id = m.id
+           THEN MapSeq(SelectSeq(UserSeq, LAMBDA u : st.allowed[i][u] > 0),
+                       LAMBDA u : [aid |-> st.auctions[i].id, u |-> u, cap |-> st.allowed[i][u]])
+           ELSE <<>>)
+    [] m.q = "GetAllowedBidder" ->
+         IF Exists(s, m.id) /\ m.u \in Users /\ s.allowed[m.id + 1][m.u] > 0
+         THEN <<[aid |-> m.id, u |-> m.u, cap |-> s.allowed[m.id + 1][m.u]]>> ELSE <<>>
+    [] m.q = "Params" -> <<s.params>>
+
+DoQuery(s, m) ==
+  [st |-> s, ok |-> (m.q \notin {"GetAuction", "GetBid", "GetAllowedBidder"} \/ QueryAnswer(s, m) # <<>>),
+   err |-> "", xfers |-> <<>>, hooks |-> <<>>]
+
 ----------------------------------------------------------------------------
 Do0(s, m) ==
   CASE m.a \in {"CreateFixed", "CreateBatch"} -> DoCreate(s, m)
@@ -501,6 +540,7 @@ Do0(s, m) ==
     [] m.a = "Donate"        -> DoDonate(s, m)
     [] m.a = "UpdateParams"  -> DoUpdateParams(s, m)
     [] m.a = "Genesis"       -> DoGenesis(s, m)
+    [] m.a = "Query"         -> DoQuery(s, m)
 
 
 ----------------------------------------------------------------------------
